@@ -10,7 +10,7 @@ from vlib import files
 from props import c02
 
 ID = "C18"
-FMTS = ["h5", "xtc", "trr", "dcd", "nc", "mdcrd", "xyz", "lammpstrj", "dtr", "arc"]
+FMTS = ["h5", "xtc", "trr", "dcd", "nc", "mdcrd", "xyz", "xyz.gz", "lammpstrj", "dtr", "arc"]
 ARC = "seeds/nitrogen.arc"
 RULE = ("case = (seekable format, file of 1-12 frames, optional fixed atom_indices, sequence of <=25 operations over two handles "
         "from {read(n), read(), seek(k) in range, seek(d,1) in range, seek(d,2) in range (generated part only; NotImplementedError = "
